@@ -356,3 +356,76 @@ Print Assumptions C13_sse_x4_read_write_le_be.
 Print Assumptions C13_avx2_x2_read_write_le_be.
 Print Assumptions C13_x86_soft_wrappers_agree.
 Print Assumptions C13_x86_soft_storage_agree.
+
+(** audit C13-F3 (work package audit-leftovers, Proofs/LeftoversPpv.v): the operations that were modelled
+    without a theorem.  [UnsafeFrom<[u32;4]>] / [UnsafeFrom<[u64;2]>] ([_mm_set_epi32] / [_mm_set_epi64x]
+    with the arguments reversed): the vector whose lanes are the array elements IN ORDER, equal to
+    [from_lanes] and read back by [to_lanes] under both SSE4.1 variants; [From<x2<u128x1_sse2,G0>>] /
+    [From<x4<u128x1_sse2>>] for the AVX2 types: the 128-bit lanes in order; [Default]: all lanes zero *)
+From CC Require Proofs.LeftoversPpv.
+
+Theorem C13_sse_u32x4_unsafe_from_order :
+  forall a b c d, u32x4_unsafe_from [a; b; c; d] = bytes_le 4 [a; b; c; d].
+Proof. exact LeftoversPpv.sse_u32x4_unsafe_from_order. Qed.
+
+Theorem C13_sse_u32x4_unsafe_from_lanes :
+  forall s4 a b c d,
+  a < 2 ^ 32 -> b < 2 ^ 32 -> c < 2 ^ 32 -> d < 2 ^ 32 ->
+  u32x4_to_lanes s4 (u32x4_unsafe_from [a; b; c; d]) = [a; b; c; d]
+  /\ words_le 4 (u32x4_unsafe_from [a; b; c; d]) = [a; b; c; d].
+Proof. exact LeftoversPpv.sse_u32x4_unsafe_from_lanes. Qed.
+
+Theorem C13_sse_u32x4_unsafe_from_eq_from_lanes :
+  forall s4 a b c d,
+  a < 2 ^ 32 -> c < 2 ^ 32 ->
+  u32x4_unsafe_from [a; b; c; d] = u32x4_from_lanes s4 [a; b; c; d].
+Proof. exact LeftoversPpv.sse_u32x4_unsafe_from_eq_from_lanes. Qed.
+
+Theorem C13_sse_u64x2_unsafe_from_order :
+  forall a b, u64x2_unsafe_from [a; b] = bytes_le 8 [a; b].
+Proof. exact LeftoversPpv.sse_u64x2_unsafe_from_order. Qed.
+
+Theorem C13_sse_u64x2_unsafe_from_lanes :
+  forall s4 a b,
+  a < 2 ^ 64 -> b < 2 ^ 64 ->
+  wf 16 (u64x2_unsafe_from [a; b])
+  /\ u64x2_to_lanes s4 (u64x2_unsafe_from [a; b]) = [a; b]
+  /\ u64x2_unsafe_from [a; b] = u64x2_from_lanes s4 [a; b].
+Proof. exact LeftoversPpv.sse_u64x2_unsafe_from_lanes. Qed.
+
+Theorem C13_avx2_from_u128x2_order :
+  forall a b,
+  wf 16 a -> wf 16 b ->
+  avx2_from_u128x2 [a; b] = a ++ b
+  /\ avx2_to_lanes (avx2_from_u128x2 [a; b]) = [a; b]
+  /\ avx2_from_u128x2 [a; b] = avx2_from_lanes [a; b]
+  /\ wf 32 (avx2_from_u128x2 [a; b]).
+Proof. exact LeftoversPpv.avx2_from_u128x2_order. Qed.
+
+Theorem C13_avx4_from_u128x4_order :
+  forall a b c d,
+  wf 16 a -> wf 16 b -> wf 16 c -> wf 16 d ->
+  concat (avx4_from_u128x4 [a; b; c; d]) = a ++ b ++ c ++ d
+  /\ avx4_to_lanes (avx4_from_u128x4 [a; b; c; d]) = [a; b; c; d]
+  /\ avx4_from_u128x4 [a; b; c; d] = avx4_from_lanes [a; b; c; d].
+Proof. exact LeftoversPpv.avx4_from_u128x4_order. Qed.
+
+Theorem C13_sse_default_zero :
+  sse_default = repeat 0 16%nat
+  /\ wf 16 sse_default
+  /\ sse_default = bytes_le 4 [0; 0; 0; 0]
+  /\ sse_default = bytes_le 8 [0; 0]
+  /\ sse_default = bytes_le 16 [0]
+  /\ (forall s4, u32x4_to_lanes s4 sse_default = [0; 0; 0; 0])
+  /\ (forall s4, u64x2_to_lanes s4 sse_default = [0; 0])
+  /\ u128x1_to_lanes sse_default = [0].
+Proof. exact LeftoversPpv.sse_default_zero. Qed.
+
+Print Assumptions C13_sse_u32x4_unsafe_from_order.
+Print Assumptions C13_sse_u32x4_unsafe_from_lanes.
+Print Assumptions C13_sse_u32x4_unsafe_from_eq_from_lanes.
+Print Assumptions C13_sse_u64x2_unsafe_from_order.
+Print Assumptions C13_sse_u64x2_unsafe_from_lanes.
+Print Assumptions C13_avx2_from_u128x2_order.
+Print Assumptions C13_avx4_from_u128x4_order.
+Print Assumptions C13_sse_default_zero.
